@@ -29,6 +29,10 @@ pub struct AofEngine {
     
     /// Is background rewrite in progress?
     rewrite_in_progress: Arc<Mutex<bool>>,
+    
+    /// Database a reader of the file has selected after the entries written so far
+    /// (`None`: unknown, the file was inherited from an earlier run)
+    last_db: Arc<Mutex<Option<usize>>>,
 }
 
 /// AOF configuration
@@ -89,6 +93,7 @@ impl AofEngine {
             config,
             last_fsync: Arc::new(Mutex::new(Instant::now())),
             rewrite_in_progress: Arc::new(Mutex::new(false)),
+            last_db: Arc::new(Mutex::new(None)),
         }
     }
     
@@ -102,6 +107,11 @@ impl AofEngine {
             .create(true)
             .append(true)
             .open(&self.file_path)?;
+        
+        // A reader of an empty file starts in database 0
+        if file.metadata()?.len() == 0 {
+            *self.last_db.lock().unwrap() = Some(0);
+        }
         
         let mut writer = self.writer.lock().unwrap();
         *writer = Some(BufWriter::new(file));
@@ -140,6 +150,22 @@ impl AofEngine {
         }
         
         Ok(())
+    }
+    
+    /// Append a command that ran in database `db`. Entries carry no database, so a `SELECT db` entry is written
+    /// first whenever the previous entry ran in another database.
+    pub fn append_command_in_db(&self, db: usize, command: &[RespFrame]) -> Result<()> {
+        if !self.config.enabled {
+            return Ok(());
+        }
+        
+        let mut last_db = self.last_db.lock().unwrap();
+        if *last_db != Some(db) {
+            let select = [RespFrame::from_string("SELECT"), RespFrame::from_string(db.to_string())];
+            self.append_command(&select)?;
+            *last_db = Some(db);
+        }
+        self.append_command(command)
     }
     
     /// Append a command to the AOF
@@ -259,6 +285,7 @@ impl Clone for AofEngine {
             config: self.config.clone(),
             last_fsync: Arc::clone(&self.last_fsync),
             rewrite_in_progress: Arc::clone(&self.rewrite_in_progress),
+            last_db: Arc::clone(&self.last_db),
         }
     }
 }
